@@ -276,7 +276,8 @@ func (w *walker) step() {
 		}
 	}
 	// a lagging experiment cache right after a restart: the window in which a reconcile still reads the completed experiment
-	if s.StaleCompletedExp() {
+	// ... and right after a verdict: the window in which a reconcile still reads the experiment as running
+	if s.StaleCompletedExp() || s.StaleRunningExp() {
 		if !w.lagDecided {
 			w.lagDecided = true
 			if r.Intn(2) == 0 {
@@ -571,6 +572,9 @@ func (world) Run(input any) kit.Case {
 		if a.Op == "begin" && a.C == "exp" && s.StaleCompletedExp() {
 			staleRestart = true
 		}
+		if a.Op == "begin" && a.C == "exp" && !s.Pending("exp") && s.StaleRunningExp() {
+			stats["experiment-reconcile-on-stale-running-cache-after-verdict"]++
+		}
 		if ((a.Op == "write" && a.Inj) || a.Op == "abort") && s.Pending(a.C) && expCompleted(prev) {
 			stats["fault-after-verdict:"+a.C]++
 		}
@@ -664,7 +668,8 @@ func (world) Run(input any) kit.Case {
 	if s.Exists > 0 {
 		c.Tags = append(c.Tags, "already-exists")
 	}
-	for _, k := range []string{"fault", "abort", "earlystop", "raisemax", "fault-after-verdict:exp", "fault-after-verdict:sug", "fault-after-verdict:trial"} {
+	for _, k := range []string{"fault", "abort", "earlystop", "raisemax", "fault-after-verdict:exp", "fault-after-verdict:sug", "fault-after-verdict:trial",
+		"experiment-reconcile-on-stale-running-cache-after-verdict"} {
 		if stats[k] > 0 {
 			c.Tags = append(c.Tags, k)
 		}
